@@ -346,6 +346,17 @@ def run_lines(cmd, lines, case_prefix=None, timeout=600, env=None, max_restarts=
         # died: `got` holds the complete lines (a partial last line is dropped)
         if not so.endswith("\n") and got:
             got.pop()
+        if rc == 0 and got and got[-1] == "HANG" and len(got) <= len(lines) - start:
+            # the harness' own watchdog fired on line start+len(got)-1, reported it and exited: resume after it
+            out[start:start + len(got)] = got
+            aborts.append((start + len(got) - 1, "HANG", ""))
+            start += len(got)
+            restarts += 1
+            if restarts > max_restarts:
+                for i in range(start, len(lines)):
+                    out[i] = "SKIPPED"
+                break
+            continue
         k = min(len(got), len(lines) - start - 1)
         out[start:start + k] = got[:k]
         why = f"rc={rc}"
